@@ -111,6 +111,7 @@ func c18Transcripts(c *kc.Ctx) []kc.Case {
 }
 
 func runC18(c *kc.Ctx) {
+	defer reportHungProbes(c)
 	c.SetRule("cases: (implementation, build configuration, program) for random straight-line programs of group/scalar operations (edge-biased scalars, points decoded from shared encodings), plus hash-to-curve / pairing / BLS-signature / key-derivation comparisons; non-trivial = every program; distinct by (implementation, program text)")
 	c.Assume("GT and G2 byte agreement between back-ends is a Go-to-Go comparison (no concrete pairing/Fp2 model in the driver yet)",
 		"agreement of builds (assembly vs pure Go, big.Int vs bigmod) has no theorem: it rests on this correspondence")
